@@ -117,7 +117,13 @@ Fixpoint prun (t : smt) (p : sproof) (ops : list pop) : list obs :=
           let ups' := match tr with Some n => firstn n ups | None => ups end in
           match proof_update p k v ups' with
           | Ok p' => OL [ONone; proof_obs p'; OB (s_root t')] :: prun t' p' ops'
-          | Err e => OL [exn_obs e; proof_obs p; OB (s_root t')] :: prun t' p ops'
+          | Err e =>
+              (* rejected: the proof is unchanged; the holder then re-creates it from the tree *)
+              let p2 := match _get t' (p_key p) with
+                        | Ok (v2, br2) => match proof_new (p_key p) v2 br2 with Ok q => q | Err _ => p end
+                        | Err _ => p
+                        end in
+              OL [exn_obs e; proof_obs p; OB (s_root t')] :: prun t' p2 ops'
           end
       | (Err e, _) => OL [exn_obs e] :: prun t p ops'
       end
